@@ -69,6 +69,11 @@ fn alphabet() -> Vec<(&'static str, Vec<X>)> {
         ("a.w.push", vec![m(access(id("a"), "w"), "push", vec![int(1)])]),
         ("a[0]=entry-new", vec![x(E::Assign(Tgt::Index(id("a"), int(0)), tuple(vec![s("k"), int(9)])))]),
         ("a[1]=entry-new", vec![x(E::Assign(Tgt::Index(id("a"), int(1)), tuple(vec![s("k2"), int(8)])))]),
+        // index assignment with a key that already exists at another position
+        ("a[2]=entry-x", vec![x(E::Assign(Tgt::Index(id("a"), int(2)), tuple(vec![s("x"), int(70)])))]),
+        ("a[1]=entry-z", vec![x(E::Assign(Tgt::Index(id("a"), int(1)), tuple(vec![s("z"), int(71)])))]),
+        ("a[0]=entry-g3", vec![x(E::Assign(Tgt::Index(id("a"), int(0)), tuple(vec![s("g3"), int(72)])))]),
+        ("a[3]=entry-g0", vec![x(E::Assign(Tgt::Index(id("a"), int(3)), tuple(vec![s("g0"), int(73)])))]),
         ("a.update-x", vec![m(id("a"), "update", vec![s("x"), func_inline(&["v"], bin(Op::Add, id("v"), int(1)))])]),
         ("a.update-new", vec![m(id("a"), "update", vec![s("n"), int(10), func_inline(&["v"], bin(Op::Mul, id("v"), int(2)))])]),
         ("a.map-extend-b", vec![m(id("a"), "extend", vec![id("b")])]),
